@@ -6,6 +6,7 @@ Nothing in here judges libcnb behaviour; it is plumbing only.
 import hashlib
 import json
 import os
+import stat
 import random
 import shutil
 import subprocess
@@ -97,6 +98,21 @@ def build_shim():
             sys.stderr.write(p.stdout)
             raise Broken("fsshim.c does not compile")
     return out
+
+
+def shared_inodes(d):
+    """regular files beneath d that have more than one name (hard links): an installed copy shares nothing with its source"""
+    out = []
+    for root, _, files in os.walk(d):
+        for fn in files:
+            p = os.path.join(root, fn)
+            try:
+                st = os.lstat(p)
+            except OSError:
+                continue
+            if stat.S_ISREG(st.st_mode) and st.st_nlink > 1:
+                out.append(os.path.relpath(p, d))
+    return sorted(out)
 
 
 class ExecutorDied(Broken):
